@@ -106,7 +106,12 @@
 //     slice elements move it around unchanged, which is all Go does on a copy; EVERY operator, comparison (also `==`
 //     on a struct or array containing one: IEEE `==` is not equality of bit patterns), conversion, constant, max / min
 //     on the type is refused, so the translated code depends on no property of floating-point numbers at all;
-//   - no package-level variables, maps, channels, closures, defer, goto.
+//   - closures: none, except the GENERATOR shape converted by closure.go before type-checking (a function whose last
+//     statement returns its only function literal, capturing variables of basic type; every use binds the result to a
+//     new local variable that is only ever called): it becomes a record of the captured variables and a method `call`,
+//     after which the rules above for a fresh `&S{…}` and a method that modifies its receiver apply; closure.go's header
+//     has the argument, the generated file's header names what was converted;
+//   - no package-level variables, maps, channels, defer, goto.
 //
 // Random generators.  A `*rand.Rand` (math/rand) is the VALUE `Go.Rand`: the stream of the draws the generator
 // will still produce and the number already consumed.  `r.Intn(n)` (the only method accepted) panics for
@@ -147,6 +152,10 @@
 // to a temporary `tN_` by a preceding `let tN_ ← …`, left to right; the right operand of && / || is
 // evaluated only when Go evaluates it; in an assignment the index operands and the right-hand sides
 // are evaluated first, then the stores happen left to right.
+//
+// `x op= y` for `+ - * / %` on int, `+ - *` and `& | ^` on unsigned words is `x = x op (y)` with x's operands evaluated
+// once.  A loop initialiser `for i := f(); …` whose call modifies its receiver or arguments is an ordinary statement in
+// front of the loop (it runs exactly once, before the first test); its variables enter the loop as state.
 //
 // Loops.  Each loop becomes a separate recursive definition `F.loopN` over the variables it assigns
 // (the loop state; the other variables it mentions are parameters), structurally recursive on a
